@@ -74,11 +74,17 @@ def set_traces(Wi, rnd, big):
                         evs.append(dict(op='set_slice', start=s[0], stop=s[1], step=s[2], val=dict(t='l', v=bits_of(x, n))))
                     if big and x % 3 == 0:
                         evs.append(dict(op='set_slice', start=s[0], stop=s[1], step=s[2], val=Bv(bits_of(x, n))))
+                if n >= 2:                                   # a Bits / list value SHORTER than the selection (zero-extended; the operand must stay as it was)
+                    x = rnd.randrange(1 << (n - 1))
+                    evs.append(dict(op='set_slice', start=s[0], stop=s[1], step=s[2], val=Bv(bits_of(x, n - 1))))
+                    if big or rnd.random() < 0.3: evs.append(dict(op='set_slice', start=s[0], stop=s[1], step=s[2], val=dict(t='l', v=bits_of(x % 2, 1))))
             for idx in lists:
                 n = len(idx)
                 for x in (range(1 << n) if big else sorted({0, (1 << n) - 1, rnd.randrange(1 << n)})):
                     evs.append(dict(op='set_list', idx=idx, val=Iv(x)))
                     evs.append(dict(op='set_list', idx=idx, val=dict(t='l', v=bits_of(x, n))))
+                if n >= 2:
+                    evs.append(dict(op='set_list', idx=idx, val=Bv(bits_of(rnd.randrange(1 << (n - 1)), n - 1))))
             for n in range(w + 4):
                 evs.append(dict(op='set_size', n=n)); evs.append(dict(op='zext_ip', n=n))
                 if w > 0: evs.append(dict(op='sext_ip', n=n))
@@ -235,7 +241,7 @@ def run(ctx):
     def corrupt2(t): t['ev'][0]['obj'][1] ^= 1; return t
     ctx.binding_selftest('trace/Trace_BitVec.tla', clean2, lambda t: len(t['ev']), corrupt2, 'Trace_BitVec: a bit outside the assigned slice changed')
     ctx.assumptions += ['integer operands are non-negative', 'int * Bits and int // Bits are not defined by the class and not exercised',
-                        'assigned values fit the selection (an int below 2^len, a list/Bits of exactly the selected length)',
+                        'assigned values fit the selection (an int below 2^len, a list/Bits of at most the selected length - shorter ones are zero-extended)',
                         'indexing the empty vector and sign-extending it are not exercised; index lists hold in-range non-negative indices',
                         'rol/ror amounts 0..size']
     return ctx.finish('harness enumerates operand pairs / index expressions / mutations completely for small widths and samples wide vectors; '
